@@ -144,6 +144,8 @@ type Ctx struct {
 	traces    int
 	Rule      string
 	Assume    []string
+	Shard     int // this process explores shard Shard of Shards (thorough tier; 0 of 1 = everything)
+	Shards    int
 }
 
 func (c *Ctx) Quick() bool { return !c.Thorough }
@@ -151,10 +153,25 @@ func (c *Ctx) Quick() bool { return !c.Thorough }
 // N picks a budget by tier.
 func (c *Ctx) N(quick, thorough int) int {
 	if c.Thorough {
+		if c.Shards > 1 { // the random budget is divided among the shards (each has its own PRNG stream)
+			return (thorough + c.Shards - 1) / c.Shards
+		}
 		return thorough
 	}
 	return quick
 }
+
+// P picks a parameter (a size, a length, a sampling stride) by tier; unlike N it is not a budget and is
+// not divided among shards.
+func (c *Ctx) P(quick, thorough int) int {
+	if c.Thorough {
+		return thorough
+	}
+	return quick
+}
+
+// Mine says whether item i of a deterministic enumeration belongs to this shard.
+func (c *Ctx) Mine(i int) bool { return c.Shards <= 1 || i%c.Shards == c.Shard }
 
 // Count records one evaluated case. key identifies the case for the distinct count;
 // nontrivial says whether it counts by the property's stated rule; class feeds the histogram.
@@ -247,6 +264,75 @@ func loadKnown(path string) []KnownFinding {
 		return nil
 	}
 	return doc.Findings
+}
+
+// shardResult is what a shard process hands back to the parent.
+type shardResult struct {
+	Evals     int                    `json:"evals"`
+	Distinct  string                 `json:"distinct"` // hex of the concatenated 16-byte keys
+	Classes   map[string]int         `json:"classes"`
+	Samples   []interface{}          `json:"samples"`
+	Failures  []Failure              `json:"failures"`
+	KnownHits map[string]int         `json:"known_hits"`
+	Notes     map[string]interface{} `json:"notes"`
+	Traces    int                    `json:"traces"`
+}
+
+// DumpShard writes this shard's counters for the parent instead of an evidence file.
+func (c *Ctx) DumpShard(path string) {
+	c.mu.Lock()
+	defer c.mu.Unlock()
+	keys := make([]byte, 0, 16*len(c.distinct))
+	for k := range c.distinct {
+		keys = append(keys, k[:]...)
+	}
+	r := shardResult{c.evals, hex.EncodeToString(keys), c.classes, c.samples, c.failures, c.knownHits, c.notes, c.traces}
+	b, _ := json.Marshal(r)
+	os.WriteFile(path, b, 0o644)
+}
+
+// MergeShard adds a shard's counters to this (parent) context.
+func (c *Ctx) MergeShard(path string, idx int) error {
+	b, err := os.ReadFile(path)
+	if err != nil {
+		return err
+	}
+	var r shardResult
+	if err := json.Unmarshal(b, &r); err != nil {
+		return err
+	}
+	c.mu.Lock()
+	defer c.mu.Unlock()
+	c.evals += r.Evals
+	c.traces += r.Traces
+	keys, _ := hex.DecodeString(r.Distinct)
+	for i := 0; i+16 <= len(keys); i += 16 {
+		var k [16]byte
+		copy(k[:], keys[i:i+16])
+		c.distinct[k] = true
+	}
+	for k, v := range r.Classes {
+		c.classes[k] += v
+	}
+	for k, v := range r.KnownHits {
+		c.knownHits[k] += v
+	}
+	for k, v := range r.Notes {
+		if _, has := c.notes[k]; !has {
+			c.notes[k] = v
+		}
+	}
+	for _, sm := range r.Samples {
+		if len(c.samples) < 12 {
+			c.samples = append(c.samples, sm)
+		}
+	}
+	for _, f := range r.Failures {
+		if len(c.failures) < 50 {
+			c.failures = append(c.failures, f)
+		}
+	}
+	return nil
 }
 
 // Finish writes the evidence file, prints KNOWN-FINDING / VIOLATION lines and returns the exit code.
